@@ -102,6 +102,7 @@ type Report struct {
 	Panic    string   `json:"panic"`    // recovered panic (value and stack head): a crash
 	Phase    string   `json:"phase"`    // what was running when it panicked
 	Notes    []string `json:"notes,omitempty"`
+	RawErrs  []string `json:"raw_errs,omitempty"` // replay only: the messages as goyang words them
 }
 
 const maxWireBytes = 24 << 10 // texts above this are survival-only (the Lean driver is not asked)
@@ -158,6 +159,17 @@ func runHistory(h History) (rep Report) {
 	rep.NErrs = len(errs)
 	phase = "error messages"
 	rep.Errs = lib.CanonErrs(errs)
+	if os.Getenv("VERIF_C01_RAW") == "1" {
+		for i, e := range errs {
+			if i < 40 {
+				m := e.Error()
+				if len(m) > 400 {
+					m = m[:400] + "…"
+				}
+				rep.RawErrs = append(rep.RawErrs, m)
+			}
+		}
+	}
 	// 4. read access to whatever came back, errors or not
 	seenMod := map[*yang.Module]bool{}
 	w := &walker{seen: map[*yang.Entry]bool{}}
